@@ -145,6 +145,9 @@ def guard(run_case, case, part):
 def _run_shard(args):
     func, shard, kw = args
     try:
+        from . import history
+
+        history.prelude()  # unrelated earlier calls in this process (see mc/history.py)
         part = func(shard, **kw)
         return part
     except BaseException:  # harness failure inside a shard
